@@ -1,0 +1,7 @@
+//go:build !verif
+
+package vm
+
+import "github.com/go-python/gpython/py"
+
+func verifInstr(f *py.Frame, op OpCode, arg int32, pc int32) {}
